@@ -3,7 +3,8 @@
 // a recording, delegating file manager and by a recording net accessor stub (no socket is ever opened).
 //
 //   G <cfg> <main system id> <supply>          parse a file tree
-//        cfg     sc=IG|WF|DG|SG,dd=0|1,ld=0|1,vs=N|A|Y,ls=0|1,ds=0|1,ns=0|1,res=none|xml|sax,api=sax2|dom[,sm=<limit>]
+//        cfg     sc=IG|WF|DG|SG,dd=0|1,ld=0|1,vs=N|A|Y,ls=0|1,ds=0|1,ns=0|1,res=none|xml|sax,api=sax2|dom|sax1[,sm=<limit>][,sp=0..9][,pre=0|1]
+//                (sp/pre: ordered configuration history — where the scanner switch happens among the policy settings)
 //        supply  -  |  lit>path>bufId;lit>path>bufId     (resolver supplies MemBufInputSource(content of path, bufId) when the
 //                                                         offered system id equals lit; declines otherwise)
 //     -> R:<type>|<systemId>|<baseURI>|<publicId>|<namespace>  O:<path>  N:<url> ... = ok | fatal:<name> | exc:<type>
@@ -38,6 +39,9 @@
 #include <xercesc/sax2/Attributes.hpp>
 #include <xercesc/sax2/DefaultHandler.hpp>
 #include <xercesc/parsers/SAX2XMLReaderImpl.hpp>
+#include <xercesc/parsers/SAXParser.hpp>
+#include <xercesc/sax/HandlerBase.hpp>
+#include <xercesc/sax/AttributeList.hpp>
 #include <xercesc/parsers/XercesDOMParser.hpp>
 #include <xercesc/dom/DOM.hpp>
 
@@ -197,6 +201,25 @@ public:
     void error(const SAXParseException&) override {}
     void warning(const SAXParseException&) override {}
 };
+class MySax1 : public SAXParser {
+public:
+    void error(const unsigned int code, const XMLCh* const domain, const XMLErrorReporter::ErrTypes t, const XMLCh* const text,
+               const XMLCh* const sysId, const XMLCh* const pubId, const XMLFileLoc line, const XMLFileLoc col) override {
+        noteError(code, domain, t);
+        SAXParser::error(code, domain, t, text, sysId, pubId, line, col);
+    }
+    void startEntityReference(const XMLEntityDecl& d) override { gObs.se++; SAXParser::startEntityReference(d); }
+};
+class Sink1 : public HandlerBase {
+public:
+    void characters(const XMLCh* const c, const XMLSize_t len) override { obsChars(c, len); }
+    void startElement(const XMLCh* const, AttributeList& a) override {
+        for (XMLSize_t i = 0; i < a.getLength(); i++) { const XMLCh* v = a.getValue(i); obsChars(v, XMLString::stringLen(v)); }
+    }
+    void fatalError(const SAXParseException&) override {}
+    void error(const SAXParseException&) override {}
+    void warning(const SAXParseException&) override {}
+};
 static void domWalk(DOMNode* n) {
     for (; n; n = n->getNextSibling()) {
         if (n->getNodeType() == DOMNode::ELEMENT_NODE) {
@@ -214,7 +237,8 @@ static void domWalk(DOMNode* n) {
 }
 
 // ------------------------------------------------------------------ configuration
-struct Cfg { std::string sc = "IG", vs = "N", res = "none", api = "sax2"; bool dd = false, ld = true, ls = true, ds = false, ns = true; long sm = -1; };
+struct Cfg { std::string sc = "IG", vs = "N", res = "none", api = "sax2"; bool dd = false, ld = true, ls = true, ds = false, ns = true; long sm = -1;
+             int sp = 0; bool pre = false; };   // sp: the scanner switch happens before configuration step sp (0..9); pre: an extra switch to another scanner first
 static bool parseCfg(const std::string& s, Cfg& c) {
     for (auto& kv : hx::split(s, ',')) {
         size_t eq = kv.find('='); if (eq == std::string::npos) return false;
@@ -222,6 +246,7 @@ static bool parseCfg(const std::string& s, Cfg& c) {
         if (k == "sc") c.sc = v; else if (k == "vs") c.vs = v; else if (k == "res") c.res = v; else if (k == "api") c.api = v;
         else if (k == "dd") c.dd = v == "1"; else if (k == "ld") c.ld = v == "1"; else if (k == "ls") c.ls = v == "1";
         else if (k == "ds") c.ds = v == "1"; else if (k == "ns") c.ns = v == "1"; else if (k == "sm") c.sm = std::stol(v);
+        else if (k == "sp") c.sp = std::stoi(v); else if (k == "pre") c.pre = v == "1";
         else return false;
     }
     return true;
@@ -246,38 +271,73 @@ static std::string runParse(const Cfg& c, const char* sysId, InputSource* src) {
     std::string res;
     XMLCh* xsys = sysId ? XMLString::transcode(sysId) : 0;
     try {
+        // The configuration is an ORDERED history: steps 0..8 below, with the scanner switch inserted before step c.sp
+        // (9 = after everything) and optionally a first switch to some other scanner at the very beginning.
+        const XMLCh* other = scannerName(c.sc == "DG" ? "IG" : "DG");
+        Sink sink;
         if (c.api == "dom") {
             MyDom p;
-            p.useScanner(scannerName(c.sc));
-            p.setDoNamespaces(c.ns);
-            p.setValidationScheme(c.vs == "Y" ? XercesDOMParser::Val_Always : c.vs == "A" ? XercesDOMParser::Val_Auto : XercesDOMParser::Val_Never);
-            p.setDoSchema(c.ds);
-            p.setLoadExternalDTD(c.ld);
-            p.setLoadSchema(c.ls);
-            p.setDisableDefaultEntityResolution(c.dd);
-            if (c.sm >= 0) p.setSecurityManager(&sm);
-            if (c.res == "xml") p.setXMLEntityResolver(&gXmlRes);
-            else if (c.res == "sax") p.setEntityResolver(&gSaxRes);
-            Sink sink; p.setErrorHandler(&sink);
+            if (c.pre) p.useScanner(other);
+            for (int step = 0; step <= 9; step++) {
+                if (step == c.sp) p.useScanner(scannerName(c.sc));
+                switch (step) {
+                case 0: p.setDoNamespaces(c.ns); break;
+                case 1: p.setValidationScheme(c.vs == "Y" ? XercesDOMParser::Val_Always : c.vs == "A" ? XercesDOMParser::Val_Auto : XercesDOMParser::Val_Never); break;
+                case 2: p.setDoSchema(c.ds); break;
+                case 3: p.setLoadExternalDTD(c.ld); break;
+                case 4: p.setLoadSchema(c.ls); break;
+                case 5: p.setDisableDefaultEntityResolution(c.dd); break;
+                case 6: if (c.sm >= 0) p.setSecurityManager(&sm); break;
+                case 7: if (c.res == "xml") p.setXMLEntityResolver(&gXmlRes); else if (c.res == "sax") p.setEntityResolver(&gSaxRes); break;
+                case 8: p.setErrorHandler(&sink); break;
+                default: break;
+                }
+            }
             gRecording = true;
             if (src) p.parse(*src); else p.parse(xsys);
             gRecording = false;
             DOMDocument* d = p.getDocument();
             if (d) domWalk(d->getDocumentElement());
+        } else if (c.api == "sax1") {
+            MySax1 p;
+            Sink1 sink1;
+            if (c.pre) p.useScanner(other);
+            for (int step = 0; step <= 9; step++) {
+                if (step == c.sp) p.useScanner(scannerName(c.sc));
+                switch (step) {
+                case 0: p.setDoNamespaces(c.ns); break;
+                case 1: p.setValidationScheme(c.vs == "Y" ? SAXParser::Val_Always : c.vs == "A" ? SAXParser::Val_Auto : SAXParser::Val_Never); break;
+                case 2: p.setDoSchema(c.ds); break;
+                case 3: p.setLoadExternalDTD(c.ld); break;
+                case 4: p.setLoadSchema(c.ls); break;
+                case 5: p.setDisableDefaultEntityResolution(c.dd); break;
+                case 6: if (c.sm >= 0) p.setSecurityManager(&sm); break;
+                case 7: if (c.res == "xml") p.setXMLEntityResolver(&gXmlRes); else if (c.res == "sax") p.setEntityResolver(&gSaxRes); break;
+                case 8: p.setDocumentHandler(&sink1); p.setErrorHandler(&sink1); break;
+                default: break;
+                }
+            }
+            gRecording = true;
+            if (src) p.parse(*src); else p.parse(xsys);
+            gRecording = false;
         } else {
             MySax2 p;
-            p.setProperty(XMLUni::fgXercesScannerName, (void*)scannerName(c.sc));
-            p.setFeature(XMLUni::fgSAX2CoreNameSpaces, c.ns);
-            p.setFeature(XMLUni::fgSAX2CoreValidation, c.vs != "N");
-            p.setFeature(XMLUni::fgXercesDynamic, c.vs == "A");
-            p.setFeature(XMLUni::fgXercesSchema, c.ds);
-            p.setFeature(XMLUni::fgXercesLoadExternalDTD, c.ld);
-            p.setFeature(XMLUni::fgXercesLoadSchema, c.ls);
-            p.setFeature(XMLUni::fgXercesDisableDefaultEntityResolution, c.dd);
-            if (c.sm >= 0) p.setProperty(XMLUni::fgXercesSecurityManager, &sm);
-            if (c.res == "xml") p.setXMLEntityResolver(&gXmlRes);
-            else if (c.res == "sax") p.setEntityResolver(&gSaxRes);
-            Sink sink; p.setContentHandler(&sink); p.setErrorHandler(&sink);
+            if (c.pre) p.setProperty(XMLUni::fgXercesScannerName, (void*)other);
+            for (int step = 0; step <= 9; step++) {
+                if (step == c.sp) p.setProperty(XMLUni::fgXercesScannerName, (void*)scannerName(c.sc));
+                switch (step) {
+                case 0: p.setFeature(XMLUni::fgSAX2CoreNameSpaces, c.ns); break;
+                case 1: p.setFeature(XMLUni::fgSAX2CoreValidation, c.vs != "N"); p.setFeature(XMLUni::fgXercesDynamic, c.vs == "A"); break;
+                case 2: p.setFeature(XMLUni::fgXercesSchema, c.ds); break;
+                case 3: p.setFeature(XMLUni::fgXercesLoadExternalDTD, c.ld); break;
+                case 4: p.setFeature(XMLUni::fgXercesLoadSchema, c.ls); break;
+                case 5: p.setFeature(XMLUni::fgXercesDisableDefaultEntityResolution, c.dd); break;
+                case 6: if (c.sm >= 0) p.setProperty(XMLUni::fgXercesSecurityManager, &sm); break;
+                case 7: if (c.res == "xml") p.setXMLEntityResolver(&gXmlRes); else if (c.res == "sax") p.setEntityResolver(&gSaxRes); break;
+                case 8: p.setContentHandler(&sink); p.setErrorHandler(&sink); break;
+                default: break;
+                }
+            }
             gRecording = true;
             if (src) p.parse(*src); else p.parse(xsys);
             gRecording = false;
